@@ -31,6 +31,7 @@ def run(ctx: Ctx):
     run_positional(ctx)
     run_rewire(ctx)
     run_prefix_names(ctx)
+    run_by_name(ctx)
 
 
 def run_main(ctx: Ctx):
@@ -313,6 +314,49 @@ def run_prefix_names(ctx: Ctx):
                 ctx.violate('C07:requested-output-missing', f'requested output {t!r} is missing from the result (returned: {sorted(y)})', case); break
             if not systems.floats_close(y[t], want[t]):
                 ctx.violate('C07:wrong-value', f'output {t} = {np.asarray(y[t]).tolist()}, exact composition {want[t].tolist()}', case); break
+
+
+def run_by_name(ctx: Ctx):
+    """a downstream component that refers to its variables BY NAME only (their definition, with normalisations, lives in another component):
+    however the system is assembled - full list in either order, or component by component with insert_components - every evaluation
+    mode gives the exact composition"""
+    from amisc import Component, System, Variable
+    rng = ctx.rng
+
+    def first(inputs):
+        return {'y': np.asarray(inputs['x'], dtype=float) ** 2 + 1.0}
+
+    def second(inputs):
+        return {'z': 3.0 * np.asarray(inputs['y'], dtype=float) + np.asarray(inputs['x'], dtype=float)}
+    for n in range(ctx.pick(4, 20)):
+        def comps():
+            x = Variable('x', domain=(1, 10), norm=rng.choice(['linear(0.5, 1)', 'zscore(1, 2)']))
+            y = Variable('y', domain=(1, 200), norm=rng.choice(['log10', 'linear(0.25, -1)']))
+            return Component(first, [x], [y], name='first', vectorized=True), Component(second, ['x', 'y'], ['z'], name='second', vectorized=True), x
+        how = rng.choice(['list', 'reversed', 'insert-second', 'insert-first', 'insert-list'])
+        c1, c2, xv = comps()
+        if how == 'list':
+            system = System(c1, c2)
+        elif how == 'reversed':
+            system = System(c2, c1)
+        elif how == 'insert-second':
+            system = System(c1); system.insert_components(c2)
+        elif how == 'insert-first':
+            system = System(c2); system.insert_components(c1)
+        else:
+            system = System(c1); system.insert_components([c2])
+        x_raw = np.array([round(1.5 + 8 * rng.random(), 4) for _ in range(3)])
+        z_true = 3.0 * (x_raw ** 2 + 1.0) + x_raw
+        case = {'by_name_case': n, 'assembled': how, 'x': x_raw.tolist()}
+        ctx.case(case, nontrivial=True, kind='by-name:' + how)
+        for kw, xin in (({}, np.asarray(xv.normalize(x_raw), dtype=float)), ({'normalized_inputs': False}, x_raw)):
+            for um in (None, 'best', {'first': 'best'}, {'second': 'best'}):
+                try:
+                    z = np.asarray(system.predict({'x': xin}, use_model=um, **kw)['z'], dtype=float)
+                except Exception as e:
+                    ctx.violate('C07:predict-raises', f'assembled by {how}, use_model={um}, {kw}: {type(e).__name__}: {e}', case); continue
+                if not np.allclose(z, z_true, rtol=1e-9):
+                    ctx.violate('C07:wrong-value', f'assembled by {how}, use_model={um}, {kw}: z = {z.tolist()}, exact composition {z_true.tolist()}', case)
 
 
 def run_rewire(ctx: Ctx):
